@@ -57,10 +57,15 @@ pub trait PrefixMatch<T: KeyOf> {
 }
 pub trait SuffixMatch<T: KeyOf> {
     spec fn suf_matched(&self, s: Seq<char>) -> Option<T>;
+    /// a "dictionary" that is a single bracket pair has that pair as its only entry
+    spec fn only_entry_s(&self) -> Option<T>;
     fn match_suffix_char_slice(&self, to_match: &[char]) -> (r: Option<&T>)
         ensures r matches Some(t) ==> is_suffix_of(t.suf(), to_match@),
             r matches Some(t) ==> self.suf_matched(to_match@) == Some(*t),
-            r is None ==> self.suf_matched(to_match@) is None;
+            r is None ==> self.suf_matched(to_match@) is None,
+            r matches Some(t) ==> (self.only_entry_s() matches Some(e) ==> *t == e),
+            // a single bracket pair matches exactly when its closing bracket is a suffix
+            self.only_entry_s() matches Some(e) ==> (r is Some <==> is_suffix_of(e.suf(), to_match@));
 }
 /// A2: `<[char]>::starts_with` / `ends_with` compare exactly (vstd ties the result to an
 /// uninterpreted-for-us `spec_slice_starts_with` under `char: obeys_eq_spec`; this states what
@@ -119,23 +124,27 @@ impl PrefixMatch<(String, String)> for nar_dev_utils::BiFixMatchDictPair {
 }
 impl PrefixMatch<(String, String)> for (String, String) {
     open spec fn keys_nonempty(&self) -> bool { self.0@.len() > 0 }
-    uninterp spec fn pre_matched(&self, s: Seq<char>) -> Option<(String, String)>;
+    /// a single pair is its own only entry: it matches exactly when its opening text is a prefix
+    open spec fn pre_matched(&self, s: Seq<char>) -> Option<(String, String)> { if is_prefix_of(self.0@, s) { Some(*self) } else { None } }
     open spec fn only_entry(&self) -> Option<(String, String)> { Some(*self) }
     #[verifier::external_body]
     fn match_prefix_char_slice(&self, to_match: &[char]) -> (r: Option<&(String, String)>) { nar_dev_utils::PrefixMatch::match_prefix_char_slice(self, to_match) }
 }
 impl SuffixMatch<String> for nar_dev_utils::SuffixMatchDict {
     uninterp spec fn suf_matched(&self, s: Seq<char>) -> Option<String>;
+    open spec fn only_entry_s(&self) -> Option<String> { None }
     #[verifier::external_body]
     fn match_suffix_char_slice(&self, to_match: &[char]) -> (r: Option<&String>) { nar_dev_utils::SuffixMatch::match_suffix_char_slice(self, to_match) }
 }
 impl SuffixMatch<(String, String)> for nar_dev_utils::SuffixMatchDictPair<String> {
     uninterp spec fn suf_matched(&self, s: Seq<char>) -> Option<(String, String)>;
+    open spec fn only_entry_s(&self) -> Option<(String, String)> { None }
     #[verifier::external_body]
     fn match_suffix_char_slice(&self, to_match: &[char]) -> (r: Option<&(String, String)>) { nar_dev_utils::SuffixMatch::match_suffix_char_slice(self, to_match) }
 }
 impl SuffixMatch<(String, String)> for (String, String) {
-    uninterp spec fn suf_matched(&self, s: Seq<char>) -> Option<(String, String)>;
+    open spec fn suf_matched(&self, s: Seq<char>) -> Option<(String, String)> { if is_suffix_of(self.1@, s) { Some(*self) } else { None } }
+    open spec fn only_entry_s(&self) -> Option<(String, String)> { Some(*self) }
     #[verifier::external_body]
     fn match_suffix_char_slice(&self, to_match: &[char]) -> (r: Option<&(String, String)>) { nar_dev_utils::SuffixMatch::match_suffix_char_slice(self, to_match) }
 }
@@ -187,10 +196,8 @@ pub open spec fn min_int(a: int, b: int) -> int { if a <= b { a } else { b } }
 pub open spec fn lex_atom_node(f: &NarseseFormat, env: Seq<char>, t: Term, n: int) -> bool {
     t matches Term::Atom { prefix, name }
     && f.atom.prefixes.pre_matched(env) == Some(prefix)
-    && prefix@.len() <= n <= env.len()
     && name@ == env.subrange(prefix@.len() as int, n)
-    && (forall|j: int| prefix@.len() <= j < n ==> #[trigger] f.atom.is_identifier.spec_call(env[j]) && f.statement.copulas.pre_matched(tail(env, j)) is None)
-    && (n < env.len() ==> !(f.atom.is_identifier.spec_call(env[n]) && f.statement.copulas.pre_matched(tail(env, n)) is None))
+    && atom_scan(f, env, prefix@.len() as int, n)
 }
 /// statement <- '<' subject copula predicate '>': the subject is parsed right after the opening
 /// bracket, the copula is the entry of the COPULA dictionary matched right after the subject, the
@@ -488,4 +495,697 @@ pub open spec fn idealized(f: &NarseseFormat, input: Seq<char>) -> Seq<char> {
 /// C02 at the entry points: a string that idealizes to the formatter's text of t parses to t
 pub open spec fn rt_entry(f: &NarseseFormat, input: Seq<char>, r: ParseResult<Term>) -> bool {
     forall|t: Term| #[trigger] rt_hyp(f, idealized(f, input), t, Seq::<char>::empty()) ==> (r matches Ok(t2) && term_eqv(t2, t))
+}
+
+// ------------------------------------------------------------------------------------------
+// std string massaging in segment_budget / segment_truth (R28).  The two adapter chains
+//   s.trim_start_matches(&left).trim_end_matches(&right)
+//   s.split(&sep).filter(|s| !s.is_empty()).map(str::to_owned).collect::<Vec<String>>()
+// are replaced by the helpers below, whose bodies ARE those chains and whose contracts (A2) state
+// what std documents: trim_*_matches removes every repeated leading / trailing occurrence of a
+// non-empty pattern; split cuts at the leftmost non-overlapping occurrences of the separator;
+// the non-empty pieces are kept in order.
+// ------------------------------------------------------------------------------------------
+pub open spec fn trim_start_spec(s: Seq<char>, p: Seq<char>) -> Seq<char>
+    decreases s.len()
+{
+    if p.len() > 0 && is_prefix_of(p, s) { trim_start_spec(tail(s, p.len() as int), p) } else { s }
+}
+pub open spec fn trim_end_spec(s: Seq<char>, p: Seq<char>) -> Seq<char>
+    decreases s.len()
+{
+    if p.len() > 0 && is_suffix_of(p, s) { trim_end_spec(s.subrange(0, s.len() - p.len()), p) } else { s }
+}
+/// index of the leftmost occurrence of `sep` in `s` at or after `i` (-1: none)
+pub open spec fn first_occ_from(s: Seq<char>, sep: Seq<char>, i: int) -> int
+    decreases s.len() - i
+{
+    if i < 0 || i + sep.len() > s.len() || i >= s.len() { -1 }
+    else if is_prefix_of(sep, tail(s, i)) { i }
+    else { first_occ_from(s, sep, i + 1) }
+}
+pub open spec fn split_spec(s: Seq<char>, sep: Seq<char>) -> Seq<Seq<char>>
+    decreases s.len()
+{
+    let i = first_occ_from(s, sep, 0);
+    if sep.len() == 0 || i < 0 || i + sep.len() > s.len() { seq![s] }
+    else { seq![s.subrange(0, i)] + split_spec(tail(s, i + sep.len()), sep) }
+}
+pub open spec fn keep_nonempty(ps: Seq<Seq<char>>) -> Seq<Seq<char>>
+    decreases ps.len()
+{
+    if ps.len() == 0 { ps }
+    else if ps.last().len() == 0 { keep_nonempty(ps.drop_last()) }
+    else { keep_nonempty(ps.drop_last()).push(ps.last()) }
+}
+pub open spec fn str_views(v: Seq<String>) -> Seq<Seq<char>> { v.map(|i: int, s: String| s@) }
+#[verifier::external_body]
+pub fn vx_trim_matches<'a>(s: &'a String, left: &String, right: &String) -> (r: &'a str)
+    ensures r@ == trim_end_spec(trim_start_spec(s@, left@), right@)
+{ s.trim_start_matches(left.as_str()).trim_end_matches(right.as_str()) }
+#[verifier::external_body]
+pub fn vx_split_nonempty(s: &str, sep: &String) -> (r: Vec<String>)
+    ensures str_views(r@) == keep_nonempty(split_spec(s@, sep@))
+{ s.split(sep.as_str()).filter(|s| !s.is_empty()).map(str::to_owned).collect::<Vec<String>>() }
+
+// ---- C02 (sentence / task level): numeric entry lists between brackets ----
+/// entries joined by `sep`, written from the left (the parser's view)
+pub open spec fn join_l(es: Seq<Seq<char>>, sep: Seq<char>) -> Seq<char>
+    decreases es.len()
+{
+    if es.len() == 0 { Seq::empty() } else if es.len() == 1 { es[0] }
+    else { es[0] + (sep + join_l(es.drop_first(), sep)) }
+}
+/// every entry is non-empty, consists of characters the content predicate accepts, and contains
+/// none of the characters in `avoid` (first / last characters of the brackets, first of the separator)
+pub open spec fn entries_ok(es: Seq<Seq<char>>, pred: &VxCharPred, avoid: Set<char>) -> bool {
+    forall|k: int, j: int| 0 <= k < es.len() && 0 <= j < es[k].len() ==>
+        pred.spec_call(#[trigger] es[k][j]) && !avoid.contains(es[k][j])
+}
+pub open spec fn all_nonempty(es: Seq<Seq<char>>) -> bool { forall|k: int| 0 <= k < es.len() ==> (#[trigger] es[k]).len() > 0 }
+pub open spec fn chars_ok(s: Seq<char>, pred: &VxCharPred, avoid: Set<char>) -> bool {
+    forall|j: int| 0 <= j < s.len() ==> pred.spec_call(#[trigger] s[j]) && !avoid.contains(s[j])
+}
+/// every character of join_l(es, sep) is a character of an entry or of the separator
+pub proof fn lemma_join_chars(es: Seq<Seq<char>>, sep: Seq<char>, pred: &VxCharPred, avoid: Set<char>)
+    requires entries_ok(es, pred, avoid), chars_ok(sep, pred, avoid)
+    ensures chars_ok(join_l(es, sep), pred, avoid)
+    decreases es.len()
+{
+    if es.len() == 0 {
+    } else if es.len() == 1 {
+        assert forall|j: int| 0 <= j < es[0].len() implies pred.spec_call(#[trigger] es[0][j]) && !avoid.contains(es[0][j]) by {}
+    } else {
+        let rest = es.drop_first();
+        assert forall|k: int, j: int| 0 <= k < rest.len() && 0 <= j < rest[k].len() implies
+            pred.spec_call(#[trigger] rest[k][j]) && !avoid.contains(rest[k][j]) by { assert(rest[k] == es[k + 1]); }
+        lemma_join_chars(rest, sep, pred, avoid);
+        let jr = join_l(rest, sep);
+        let s = es[0] + (sep + jr);
+        assert forall|j: int| 0 <= j < s.len() implies pred.spec_call(#[trigger] s[j]) && !avoid.contains(s[j]) by {
+            if j < es[0].len() { assert(s[j] == es[0][j]); }
+            else if j < es[0].len() + sep.len() { assert(s[j] == sep[j - es[0].len()]); }
+            else { assert(s[j] == jr[j - es[0].len() - sep.len()]); }
+        }
+    }
+}
+/// the leftmost occurrence: nothing that starts with sep[0] before `target`, an occurrence at `target`
+pub proof fn lemma_first_occ(s: Seq<char>, sep: Seq<char>, i: int, target: int)
+    requires sep.len() >= 1, 0 <= i <= target, target + sep.len() <= s.len(),
+        forall|j: int| i <= j < target ==> s[j] != sep[0],
+        is_prefix_of(sep, tail(s, target)),
+    ensures first_occ_from(s, sep, i) == target
+    decreases target - i
+{
+    if i < target {
+        if is_prefix_of(sep, tail(s, i)) {
+            assert(tail(s, i).subrange(0, sep.len() as int)[0] == sep[0]);
+            assert(tail(s, i)[0] == s[i]);
+            assert(false);
+        }
+        lemma_first_occ(s, sep, i + 1, target);
+    }
+}
+pub proof fn lemma_no_occ(s: Seq<char>, sep: Seq<char>, i: int)
+    requires sep.len() >= 1, 0 <= i, forall|j: int| i <= j < s.len() ==> s[j] != sep[0],
+    ensures first_occ_from(s, sep, i) == -1
+    decreases s.len() - i
+{
+    if i + sep.len() <= s.len() && i < s.len() {
+        if is_prefix_of(sep, tail(s, i)) {
+            assert(tail(s, i).subrange(0, sep.len() as int)[0] == sep[0]);
+            assert(tail(s, i)[0] == s[i]);
+            assert(false);
+        }
+        lemma_no_occ(s, sep, i + 1);
+    }
+}
+pub proof fn lemma_keep_nonempty_one(e: Seq<char>)
+    ensures e.len() == 0 ==> keep_nonempty(seq![e]) == Seq::<Seq<char>>::empty(),
+        e.len() > 0 ==> keep_nonempty(seq![e]) == seq![e],
+{
+    let one = seq![e];
+    assert(one.len() == 1);
+    assert(one.last() == e);
+    assert(one.drop_last() =~= Seq::<Seq<char>>::empty());
+    assert(keep_nonempty(one.drop_last()) =~= Seq::<Seq<char>>::empty());
+    if e.len() > 0 {
+        assert(Seq::<Seq<char>>::empty().push(e) =~= one);
+    }
+}
+pub proof fn lemma_keep_nonempty_prepend(e: Seq<char>, ps: Seq<Seq<char>>)
+    requires e.len() > 0
+    ensures keep_nonempty(seq![e] + ps) == seq![e] + keep_nonempty(ps)
+    decreases ps.len()
+{
+    if ps.len() == 0 {
+        assert(seq![e] + ps =~= seq![e]);
+        lemma_keep_nonempty_one(e);
+        assert(seq![e] + keep_nonempty(ps) =~= seq![e]);
+    } else {
+        lemma_keep_nonempty_prepend(e, ps.drop_last());
+        assert((seq![e] + ps).drop_last() =~= seq![e] + ps.drop_last());
+        assert((seq![e] + ps).last() == ps.last());
+        if ps.last().len() > 0 {
+            assert((seq![e] + keep_nonempty(ps.drop_last())).push(ps.last()) =~= seq![e] + keep_nonempty(ps.drop_last()).push(ps.last()));
+        }
+    }
+}
+/// splitting the joined entries gives the entries back
+pub proof fn lemma_split_join(es: Seq<Seq<char>>, sep: Seq<char>)
+    requires sep.len() >= 1, all_nonempty(es),
+        forall|k: int, j: int| 0 <= k < es.len() && 0 <= j < es[k].len() ==> #[trigger] es[k][j] != sep[0],
+    ensures keep_nonempty(split_spec(join_l(es, sep), sep)) == es
+    decreases es.len()
+{
+    let s = join_l(es, sep);
+    if es.len() == 0 {
+        assert(first_occ_from(s, sep, 0) == -1);
+        assert(split_spec(s, sep) =~= seq![s]);
+        lemma_keep_nonempty_one(s);
+        assert(es =~= Seq::<Seq<char>>::empty());
+    } else if es.len() == 1 {
+        assert forall|j: int| 0 <= j < s.len() implies s[j] != sep[0] by { assert(s[j] == es[0][j]); }
+        lemma_no_occ(s, sep, 0);
+        assert(split_spec(s, sep) =~= seq![s]);
+        lemma_keep_nonempty_one(s);
+        assert(es =~= seq![es[0]]);
+    } else {
+        let rest = es.drop_first();
+        let jr = join_l(rest, sep);
+        assert(s == es[0] + (sep + jr));
+        assert forall|j: int| 0 <= j < es[0].len() implies s[j] != sep[0] by { assert(s[j] == es[0][j]); }
+        lemma_tail_concat(es[0], sep + jr);
+        lemma_tail_concat(sep, jr);
+        assert(is_prefix_of(sep, sep + jr));
+        lemma_first_occ(s, sep, 0, es[0].len() as int);
+        assert(s.subrange(0, es[0].len() as int) =~= es[0]);
+        assert(tail(s, (es[0].len() + sep.len()) as int) =~= jr);
+        assert forall|k: int, j: int| 0 <= k < rest.len() && 0 <= j < rest[k].len() implies #[trigger] rest[k][j] != sep[0] by { assert(rest[k] == es[k + 1]); }
+        assert forall|k: int| 0 <= k < rest.len() implies (#[trigger] rest[k]).len() > 0 by { assert(rest[k] == es[k + 1]); }
+        lemma_split_join(rest, sep);
+        lemma_keep_nonempty_prepend(es[0], split_spec(jr, sep));
+        assert(seq![es[0]] + rest =~= es);
+    }
+}
+pub proof fn lemma_trim_start_step(s: Seq<char>, p: Seq<char>)
+    ensures (p.len() > 0 && is_prefix_of(p, s)) ==> trim_start_spec(s, p) == trim_start_spec(tail(s, p.len() as int), p),
+        !(p.len() > 0 && is_prefix_of(p, s)) ==> trim_start_spec(s, p) == s,
+{}
+pub proof fn lemma_trim_end_step(s: Seq<char>, p: Seq<char>)
+    ensures (p.len() > 0 && is_suffix_of(p, s)) ==> trim_end_spec(s, p) == trim_end_spec(s.subrange(0, s.len() - p.len()), p),
+        !(p.len() > 0 && is_suffix_of(p, s)) ==> trim_end_spec(s, p) == s,
+{}
+/// trimming the brackets off `left + body + right` gives `body` when body neither starts with
+/// left's first nor ends with right's last character (and is non-empty)
+pub proof fn lemma_trim_brackets(left: Seq<char>, body: Seq<char>, right: Seq<char>)
+    requires left.len() >= 1, right.len() >= 1, body.len() >= 1, body[0] != left[0], body.last() != right.last()
+    ensures trim_end_spec(trim_start_spec(left + (body + right), left), right) == body
+{
+    let s = left + (body + right);
+    let s1 = body + right;
+    // leading side: `left` once, then the body starts with another character
+    assert(is_prefix_of(left, s)) by { assert(s.subrange(0, left.len() as int) =~= left); }
+    assert(tail(s, left.len() as int) == s1) by { assert(tail(s, left.len() as int) =~= s1); }
+    assert(!is_prefix_of(left, s1)) by {
+        if is_prefix_of(left, s1) {
+            assert(s1.subrange(0, left.len() as int)[0] == s1[0]);
+            assert(s1[0] == body[0]);
+        }
+    }
+    lemma_trim_start_step(s, left);
+    lemma_trim_start_step(s1, left);
+    assert(trim_start_spec(s, left) == s1);
+    // trailing side: `right` once, then the body ends with another character
+    assert(is_suffix_of(right, s1)) by { assert(s1.subrange(s1.len() - right.len(), s1.len() as int) =~= right); }
+    assert(s1.subrange(0, s1.len() - right.len()) == body) by { assert(s1.subrange(0, s1.len() - right.len()) =~= body); }
+    assert(!is_suffix_of(right, body)) by {
+        if is_suffix_of(right, body) {
+            let tl = body.subrange(body.len() - right.len(), body.len() as int);
+            assert(tl.last() == body.last());
+        }
+    }
+    lemma_trim_end_step(s1, right);
+    lemma_trim_end_step(body, right);
+}
+// ---- C02: completeness of the bracket scans ----
+/// the closing bracket stands at p and every character between `start` and p is accepted
+pub open spec fn close_reachable<F: Fn(char) -> bool>(env: Seq<char>, start: int, right: Seq<char>, p: int, verify: F) -> bool {
+    start <= p < env.len() && is_prefix_of(right, tail(env, p))
+    && forall|j: int, b: bool| start <= j < p && #[trigger] call_ensures(verify, (env[j],), b) ==> b
+}
+/// the opening bracket ends at q + left.len() and every character after it is accepted
+pub open spec fn open_reachable<F: Fn(char) -> bool>(c: Seq<char>, left: Seq<char>, q: int, verify: F) -> bool {
+    0 <= q && q + left.len() <= c.len() && is_suffix_of(left, c.subrange(0, q + left.len()))
+    && forall|j: int, b: bool| q + left.len() <= j < c.len() && #[trigger] call_ensures(verify, (c[j],), b) ==> b
+}
+/// the same, with the content predicate of the format
+pub open spec fn close_reachable_p(env: Seq<char>, start: int, right: Seq<char>, p: int, pred: &VxCharPred) -> bool {
+    vx_mark(p) && start <= p < env.len() && is_prefix_of(right, tail(env, p))
+    && forall|j: int| start <= j < p ==> pred.spec_call(#[trigger] env[j])
+}
+pub open spec fn open_reachable_p(c: Seq<char>, left: Seq<char>, q: int, pred: &VxCharPred) -> bool {
+    vx_mark(q) && 0 <= q && q + left.len() <= c.len() && is_suffix_of(left, c.subrange(0, q + left.len()))
+    && forall|j: int| q + left.len() <= j < c.len() ==> pred.spec_call(#[trigger] c[j])
+}
+/// what segment_budget / segment_truth compute from the bracketed text
+pub open spec fn items_of(text: Seq<char>, left: Seq<char>, right: Seq<char>, sep: Seq<char>) -> Seq<Seq<char>> {
+    keep_nonempty(split_spec(trim_end_spec(trim_start_spec(text, left), right), sep))
+}
+
+// ------------------------------------------------------------------------------------------
+// C02, sentence / task level: what parse_items is handed when the text is the lexical formatter's
+// layout of a value (spaces removed): [budget] term [punctuation [stamp] [truth]]
+// ------------------------------------------------------------------------------------------
+/// the strings of a lexical value, as character sequences (a Term value has no punctuation, stamp,
+/// truth; a Sentence no budget)
+pub struct RtV {
+    pub has_budget: bool,
+    pub budget: Seq<Seq<char>>,
+    pub term: Term,
+    pub punct: Seq<char>,
+    pub stamp: Seq<char>,
+    pub truth: Seq<Seq<char>>,
+}
+pub open spec fn entries_text(es: Seq<Seq<char>>, l: Seq<char>, r: Seq<char>, sep: Seq<char>) -> Seq<char> { l + (join_l(es, sep) + r) }
+pub open spec fn rt_b(f: &NarseseFormat, v: RtV) -> Seq<char> {
+    if v.has_budget { entries_text(v.budget, f.task.budget_brackets.0@, f.task.budget_brackets.1@, f.task.budget_separator@) } else { Seq::empty() }
+}
+#[verifier::opaque]
+pub open spec fn rt_t(f: &NarseseFormat, v: RtV) -> Seq<char> { ns_k(f, v.term, Seq::empty()) }
+pub open spec fn rt_tr(f: &NarseseFormat, v: RtV) -> Seq<char> {
+    if v.truth.len() == 0 { Seq::empty() } else { entries_text(v.truth, f.sentence.truth_brackets.0@, f.sentence.truth_brackets.1@, f.sentence.truth_separator@) }
+}
+/// budget + term: what stands left of the punctuation
+pub open spec fn rt_x2(f: &NarseseFormat, v: RtV) -> Seq<char> { rt_b(f, v) + rt_t(f, v) }
+/// ... left of the stamp
+pub open spec fn rt_x1p(f: &NarseseFormat, v: RtV) -> Seq<char> { rt_x2(f, v) + v.punct }
+/// ... left of the truth
+pub open spec fn rt_x1(f: &NarseseFormat, v: RtV) -> Seq<char> { rt_x1p(f, v) + v.stamp }
+pub open spec fn rt_env(f: &NarseseFormat, v: RtV) -> Seq<char> { rt_x1(f, v) + rt_tr(f, v) }
+
+/// a numeric list between brackets: non-empty brackets and separator; entries are non-empty runs of
+/// content characters that avoid the first / last characters of the brackets and the first of the
+/// separator; the separator consists of content characters that avoid the bracket characters
+pub open spec fn list_ok(es: Seq<Seq<char>>, l: Seq<char>, r: Seq<char>, sep: Seq<char>, pred: &VxCharPred) -> bool {
+    &&& l.len() >= 1 && r.len() >= 1 && sep.len() >= 1 && es.len() >= 1
+    &&& all_nonempty(es)
+    &&& entries_ok(es, pred, set![l[0], l.last(), r[0], r.last(), sep[0]])
+    &&& chars_ok(sep, pred, set![l[0], l.last(), r[0], r.last()])
+}
+/// `l r` (an empty list) yields no entry
+pub open spec fn empty_list_ok(l: Seq<char>, r: Seq<char>, sep: Seq<char>) -> bool {
+    l.len() >= 1 && r.len() >= 1 && sep.len() >= 1 && items_of(l + r, l, r, sep).len() == 0
+}
+/// the prefix scan for a budget fails: it meets a character that is no budget content (or the end)
+/// before any closing bracket
+pub open spec fn prefix_scan_stops(env: Seq<char>, start: int, right: Seq<char>, pred: &VxCharPred) -> bool {
+    exists|e: int| #![trigger vx_mark(e)] vx_mark(e) && start <= e <= env.len()
+        && (forall|j: int| start <= j <= e && j < env.len() ==> !is_prefix_of(right, #[trigger] tail(env, j)))
+        && (e == env.len() || !pred.spec_call(env[e]))
+}
+/// the suffix scan for a stamp fails: it meets a character that is no stamp content (or the start)
+/// before the text ends with the opening text
+pub open spec fn suffix_scan_stops(c: Seq<char>, left: Seq<char>, pred: &VxCharPred) -> bool {
+    exists|e: int| #![trigger vx_mark(e)] vx_mark(e) && 0 <= e <= c.len()
+        && (forall|j: int| e <= j <= c.len() ==> !is_suffix_of(left, #[trigger] c.subrange(0, j)))
+        && (e == 0 || !pred.spec_call(c[e - 1]))
+}
+/// a non-empty stamp string is one of the format's stamp forms: opening text, content characters, closing text
+pub open spec fn stamp_ok(f: &NarseseFormat, x: Seq<char>, s: Seq<char>) -> bool {
+    f.sentence.stamp_brackets.suf_matched(x + s) matches Some(t)
+    && t.0@.len() + t.1@.len() <= s.len()
+    && is_prefix_of(t.0@, s) && is_suffix_of(t.1@, s)
+    && (forall|j: int| t.0@.len() <= j < s.len() - t.1@.len() ==> f.sentence.is_stamp_content.spec_call(#[trigger] s[j]))
+    // the opening text is not seen again further right
+    && (forall|j: int| x.len() + t.0@.len() < j <= x.len() + s.len() - t.1@.len() ==> !is_suffix_of(t.0@, #[trigger] (x + s).subrange(0, j)))
+}
+pub open spec fn no_stamp(f: &NarseseFormat, x: Seq<char>) -> bool {
+    f.sentence.stamp_brackets.suf_matched(x) is None
+    || (f.sentence.stamp_brackets.suf_matched(x) matches Some(t)
+        && suffix_scan_stops(x.subrange(0, x.len() - t.1@.len()), t.0@, &f.sentence.is_stamp_content))
+}
+/// budget: present with well-formed entries, or absent and not mistaken for one
+pub open spec fn rt_budget_hyp(f: &NarseseFormat, has_budget: bool, budget: Seq<Seq<char>>, env: Seq<char>) -> bool {
+    &&& f.task.budget_brackets.1@.len() >= 1
+    &&& has_budget ==> (if budget.len() == 0 { empty_list_ok(f.task.budget_brackets.0@, f.task.budget_brackets.1@, f.task.budget_separator@) }
+            else { list_ok(budget, f.task.budget_brackets.0@, f.task.budget_brackets.1@, f.task.budget_separator@, &f.task.is_budget_content) })
+    &&& !has_budget ==> (!is_prefix_of(f.task.budget_brackets.0@, env)
+            || prefix_scan_stops(env, f.task.budget_brackets.0@.len() as int, f.task.budget_brackets.1@, &f.task.is_budget_content))
+}
+pub open spec fn rt_truth_hyp(f: &NarseseFormat, truth: Seq<Seq<char>>, env: Seq<char>) -> bool {
+    &&& truth.len() > 0 ==> list_ok(truth, f.sentence.truth_brackets.0@, f.sentence.truth_brackets.1@, f.sentence.truth_separator@, &f.sentence.is_truth_content)
+    &&& truth.len() == 0 ==> !is_suffix_of(f.sentence.truth_brackets.1@, env)
+}
+/// x: what stands left of the stamp
+pub open spec fn rt_stamp_hyp(f: &NarseseFormat, x: Seq<char>, stamp: Seq<char>) -> bool {
+    &&& stamp.len() > 0 ==> stamp_ok(f, x, stamp)
+    &&& stamp.len() == 0 ==> no_stamp(f, x)
+}
+/// x: what stands left of the punctuation (budget + term)
+pub open spec fn rt_punct_hyp(f: &NarseseFormat, x: Seq<char>, punct: Seq<char>) -> bool {
+    &&& punct.len() > 0 ==> (f.sentence.punctuations.suf_matched(x + punct) matches Some(k) && k@ == punct)
+    &&& punct.len() == 0 ==> f.sentence.punctuations.suf_matched(x) is None
+}
+/// hypotheses of the round trip for a whole value (see rt_term for the term)
+#[verifier::opaque]
+pub open spec fn rt_value(f: &NarseseFormat, v: RtV) -> bool {
+    &&& rt_term(f, v.term, Seq::empty()) && rt_t(f, v).len() > 0
+    &&& rt_budget_hyp(f, v.has_budget, v.budget, rt_env(f, v))
+    &&& rt_truth_hyp(f, v.truth, rt_env(f, v))
+    &&& rt_stamp_hyp(f, rt_x1p(f, v), v.stamp)
+    &&& rt_punct_hyp(f, rt_x2(f, v), v.punct)
+}
+pub open spec fn rt_vhyp(f: &NarseseFormat, env: Seq<char>, v: RtV) -> bool { env == rt_env(f, v) && rt_value(f, v) }
+
+/// a bracketed list `l J r` followed by anything: where the first closing bracket is, what the items are
+pub proof fn lemma_list_prefix(es: Seq<Seq<char>>, l: Seq<char>, r: Seq<char>, sep: Seq<char>, pred: &VxCharPred, rest: Seq<char>)
+    requires list_ok(es, l, r, sep, pred)
+    ensures ({
+        let b = entries_text(es, l, r, sep); let env = b + rest; let p = l.len() + join_l(es, sep).len();
+        &&& is_prefix_of(l, env) && env.subrange(0, b.len() as int) == b && b.len() == p + r.len()
+        &&& close_reachable_p(env, l.len() as int, r, p as int, pred)
+        &&& forall|rb: int| #[trigger] first_close_from(env, l.len() as int, r, rb) ==> rb == b.len()
+        &&& items_of(b, l, r, sep) == es
+    })
+{
+    let j = join_l(es, sep);
+    let b = entries_text(es, l, r, sep); let env = b + rest; let p = (l.len() + j.len()) as int;
+    let avoid2 = set![l[0], l.last(), r[0], r.last()];
+    // characters of the joined entries
+    assert forall|k: int, i: int| 0 <= k < es.len() && 0 <= i < es[k].len() implies pred.spec_call(#[trigger] es[k][i]) && !avoid2.contains(es[k][i]) by {}
+    lemma_join_chars(es, sep, pred, avoid2);
+    lemma_join_nonempty(es, sep);
+    assert(env.subrange(0, b.len() as int) =~= b);
+    assert(env.subrange(0, l.len() as int) =~= l);
+    assert forall|i: int| l.len() <= i < p implies env[i] == j[i - l.len()] by {}
+    assert(tail(env, p).subrange(0, r.len() as int) =~= r);
+    assert(vx_mark(p));
+    assert forall|rb: int| #[trigger] first_close_from(env, l.len() as int, r, rb) implies rb == b.len() by {
+        let q = rb - r.len();
+        if q < p {
+            assert(tail(env, q).subrange(0, r.len() as int)[0] == r[0]);
+            assert(tail(env, q)[0] == env[q]);
+            assert(false);
+        }
+        if q > p { assert(is_prefix_of(r, tail(env, p))); assert(false); }
+    }
+    // items
+    lemma_trim_brackets(l, j, r);
+    assert forall|k: int, i: int| 0 <= k < es.len() && 0 <= i < es[k].len() implies #[trigger] es[k][i] != sep[0] by {}
+    lemma_split_join(es, sep);
+}
+pub proof fn lemma_join_nonempty(es: Seq<Seq<char>>, sep: Seq<char>)
+    requires es.len() >= 1, all_nonempty(es)
+    ensures join_l(es, sep).len() >= 1, join_l(es, sep)[0] == es[0][0], join_l(es, sep).last() == es.last().last()
+    decreases es.len()
+{
+    if es.len() > 1 {
+        let rest = es.drop_first();
+        assert forall|k: int| 0 <= k < rest.len() implies (#[trigger] rest[k]).len() > 0 by { assert(rest[k] == es[k + 1]); }
+        lemma_join_nonempty(rest, sep);
+        assert(rest.last() == es.last());
+    }
+}
+/// ... and as a suffix of anything: where the last opening bracket is
+pub proof fn lemma_list_suffix(es: Seq<Seq<char>>, l: Seq<char>, r: Seq<char>, sep: Seq<char>, pred: &VxCharPred, x: Seq<char>)
+    requires list_ok(es, l, r, sep, pred)
+    ensures ({
+        let b = entries_text(es, l, r, sep); let env = x + b; let c = env.subrange(0, env.len() - r.len());
+        &&& is_suffix_of(r, env) && env.subrange(x.len() as int, env.len() as int) == b
+        &&& open_reachable_p(c, l, x.len() as int, pred)
+        &&& forall|lb: int| #[trigger] last_open_before(env, env.len() - r.len(), l, lb) ==> lb == x.len()
+        &&& items_of(b, l, r, sep) == es
+    })
+{
+    let j = join_l(es, sep);
+    let b = entries_text(es, l, r, sep); let env = x + b; let c = env.subrange(0, env.len() - r.len());
+    let avoid2 = set![l[0], l.last(), r[0], r.last()];
+    assert forall|k: int, i: int| 0 <= k < es.len() && 0 <= i < es[k].len() implies pred.spec_call(#[trigger] es[k][i]) && !avoid2.contains(es[k][i]) by {}
+    lemma_join_chars(es, sep, pred, avoid2);
+    lemma_join_nonempty(es, sep);
+    assert(env.subrange(env.len() - r.len(), env.len() as int) =~= r);
+    assert(env.subrange(x.len() as int, env.len() as int) =~= b);
+    assert(c =~= x + (l + j));
+    let q00 = (x.len() + l.len()) as int;
+    let pre0 = c.subrange(0, q00);
+    assert(pre0.subrange(pre0.len() - l.len(), pre0.len() as int) =~= l);
+    assert forall|i: int| x.len() + l.len() <= i < c.len() implies c[i] == j[i - x.len() - l.len()] by {}
+    assert(vx_mark(x.len() as int));
+    assert forall|lb: int| #[trigger] last_open_before(env, env.len() - r.len(), l, lb) implies lb == x.len() by {
+        let q = lb + l.len();
+        let q0 = (x.len() + l.len()) as int;
+        if q > q0 {
+            // the text up to q would end with l, but its last character is a character of j
+            let pre = env.subrange(0, q);
+            assert(pre.subrange(pre.len() - l.len(), pre.len() as int).last() == l.last());
+            assert(pre.last() == env[q - 1]);
+            assert(env[q - 1] == j[q - 1 - x.len() - l.len()]);
+            assert(false);
+        }
+        if q < q0 {
+            assert(env.subrange(0, q0) =~= c.subrange(0, q0));
+            assert(is_suffix_of(l, env.subrange(0, q0)));
+            assert(false);
+        }
+    }
+    lemma_trim_brackets(l, j, r);
+    assert forall|k: int, i: int| 0 <= k < es.len() && 0 <= i < es[k].len() implies #[trigger] es[k][i] != sep[0] by {}
+    lemma_split_join(es, sep);
+}
+/// what parse_items returns for the text of value v
+pub open spec fn rt_mid(m: MidParseResult, v: RtV) -> bool {
+    &&& (v.has_budget ==> (m.budget matches Some(b) && str_views(b@) == v.budget)) && (!v.has_budget ==> m.budget is None)
+    &&& (m.term matches Some(t) && term_eqv(t, v.term))
+    &&& (v.punct.len() > 0 ==> (m.punctuation matches Some(k) && k@ == v.punct)) && (v.punct.len() == 0 ==> m.punctuation is None)
+    &&& (v.stamp.len() > 0 ==> (m.stamp matches Some(s) && s@ == v.stamp)) && (v.stamp.len() == 0 ==> m.stamp is None)
+    &&& (v.truth.len() > 0 ==> (m.truth matches Some(t) && str_views(t@) == v.truth)) && (v.truth.len() == 0 ==> m.truth is None)
+}
+/// what follows the budget
+pub open spec fn rt_after_b(f: &NarseseFormat, v: RtV) -> Seq<char> { ((rt_t(f, v) + v.punct) + v.stamp) + rt_tr(f, v) }
+pub proof fn lemma_rt_forms(f: &NarseseFormat, v: RtV)
+    ensures rt_env(f, v) == rt_b(f, v) + rt_after_b(f, v),
+        rt_env(f, v).subrange(0, rt_x1(f, v).len() as int) == rt_x1(f, v),
+        rt_x1(f, v).subrange(0, rt_x1p(f, v).len() as int) == rt_x1p(f, v),
+        rt_x1p(f, v).subrange(0, rt_x2(f, v).len() as int) == rt_x2(f, v),
+        rt_x2(f, v).subrange(rt_b(f, v).len() as int, rt_x2(f, v).len() as int) == rt_t(f, v),
+        rt_env(f, v).subrange(0, rt_x1p(f, v).len() as int) == rt_x1p(f, v),
+        rt_env(f, v).subrange(0, rt_x2(f, v).len() as int) == rt_x2(f, v),
+        rt_env(f, v).subrange(rt_b(f, v).len() as int, rt_x2(f, v).len() as int) == rt_t(f, v),
+        rt_x2(f, v).len() == rt_b(f, v).len() + rt_t(f, v).len(),
+        v.truth.len() == 0 ==> rt_env(f, v) == rt_x1(f, v),
+        v.stamp.len() == 0 ==> rt_x1(f, v) == rt_x1p(f, v),
+        v.punct.len() == 0 ==> rt_x1p(f, v) == rt_x2(f, v),
+{
+    assert(rt_env(f, v) =~= rt_b(f, v) + rt_after_b(f, v));
+    assert(rt_env(f, v).subrange(0, rt_x1(f, v).len() as int) =~= rt_x1(f, v));
+    assert(rt_x1(f, v).subrange(0, rt_x1p(f, v).len() as int) =~= rt_x1p(f, v));
+    assert(rt_x1p(f, v).subrange(0, rt_x2(f, v).len() as int) =~= rt_x2(f, v));
+    assert(rt_x2(f, v).subrange(rt_b(f, v).len() as int, rt_x2(f, v).len() as int) =~= rt_t(f, v));
+    assert(rt_env(f, v).subrange(0, rt_x1p(f, v).len() as int) =~= rt_x1p(f, v));
+    assert(rt_env(f, v).subrange(0, rt_x2(f, v).len() as int) =~= rt_x2(f, v));
+    assert(rt_env(f, v).subrange(rt_b(f, v).len() as int, rt_x2(f, v).len() as int) =~= rt_t(f, v));
+    if v.truth.len() == 0 { assert(rt_env(f, v) =~= rt_x1(f, v)); }
+    if v.stamp.len() == 0 { assert(rt_x1(f, v) =~= rt_x1p(f, v)); }
+    if v.punct.len() == 0 { assert(rt_x1p(f, v) =~= rt_x2(f, v)); }
+}
+
+// ---- the contracts of the four item segmenters as predicates over views (so that the C02 steps
+// can be proved as lemmas outside parse_items) ----
+pub open spec fn views_opt(r: Option<(Vec<String>, ParseIndex)>) -> Option<(Seq<Seq<char>>, int)> {
+    match r { Some(p) => Some((str_views(p.0@), p.1 as int)), None => None }
+}
+pub open spec fn view_opt(r: Option<(String, ParseIndex)>) -> Option<(Seq<char>, int)> {
+    match r { Some(p) => Some((p.0@, p.1 as int)), None => None }
+}
+/// segment_budget: the budget is the text from the opening bracket at the start to the FIRST closing
+/// bracket after it (all characters between them budget content); its entries are the non-empty
+/// pieces between the separators; it is found whenever such a closing bracket can be reached
+pub open spec fn budget_post(f: &NarseseFormat, env: Seq<char>, r: Option<(Seq<Seq<char>>, int)>) -> bool {
+    let bl = f.task.budget_brackets.0@; let br = f.task.budget_brackets.1@; let sep = f.task.budget_separator@;
+    &&& r matches Some(p) ==> p.1 <= env.len() && is_prefix_of(bl, env)
+            && first_close_from(env, bl.len() as int, br, p.1)
+            && p.0 == items_of(env.subrange(0, p.1), bl, br, sep)
+            && (forall|j: int| bl.len() <= j < p.1 - br.len() ==> f.task.is_budget_content.spec_call(#[trigger] env[j]))
+    &&& forall|q: int| is_prefix_of(bl, env) && #[trigger] close_reachable_p(env, bl.len() as int, br, q, &f.task.is_budget_content) ==> r is Some
+}
+/// segment_truth: from the LAST opening bracket before the closing bracket at the end
+pub open spec fn truth_post(f: &NarseseFormat, env: Seq<char>, r: Option<(Seq<Seq<char>>, int)>) -> bool {
+    let tl = f.sentence.truth_brackets.0@; let tr = f.sentence.truth_brackets.1@; let sep = f.sentence.truth_separator@;
+    &&& r matches Some(p) ==> 0 <= p.1 <= env.len() && is_suffix_of(tr, env)
+            && last_open_before(env, env.len() - tr.len(), tl, p.1)
+            && p.0 == items_of(env.subrange(p.1, env.len() as int), tl, tr, sep)
+    &&& forall|q: int| is_suffix_of(tr, env) && #[trigger] open_reachable_p(env.subrange(0, env.len() - tr.len()), tl, q, &f.sentence.is_truth_content) ==> r is Some
+    &&& !is_suffix_of(tr, env) ==> r is None
+}
+/// segment_stamp: the stamp form matched at the end, from its last opening text, verbatim
+pub open spec fn stamp_post(f: &NarseseFormat, env: Seq<char>, r: Option<(Seq<char>, int)>) -> bool {
+    let m = f.sentence.stamp_brackets.suf_matched(env);
+    &&& r matches Some(p) ==> 0 <= p.1 <= env.len() && (m matches Some(t)
+            && last_open_before(env, env.len() - t.1@.len(), t.0@, p.1)
+            && p.0 == env.subrange(p.1, env.len() as int)
+            && (forall|j: int| p.1 + t.0@.len() <= j < env.len() - t.1@.len() ==> f.sentence.is_stamp_content.spec_call(#[trigger] env[j])))
+    &&& m is None ==> r is None
+    &&& forall|q: int| m is Some && #[trigger] open_reachable_p(env.subrange(0, env.len() - m->Some_0.1@.len()), m->Some_0.0@, q, &f.sentence.is_stamp_content) ==> r is Some
+}
+/// segment_punctuation: the entry of the punctuation dictionary matched at the end
+pub open spec fn punct_post(f: &NarseseFormat, env: Seq<char>, r: Option<(Seq<char>, int)>) -> bool {
+    &&& r matches Some(p) ==> (f.sentence.punctuations.suf_matched(env) matches Some(k) && p.0 == k@ && p.1 == env.len() - k@.len())
+    &&& r is None ==> f.sentence.punctuations.suf_matched(env) is None
+}
+
+// ---- the four steps of parse_items on the text of a value ----
+pub proof fn lemma_step_budget(f: &NarseseFormat, env: Seq<char>, has_budget: bool, budget: Seq<Seq<char>>, rest: Seq<char>, r: Option<(Seq<Seq<char>>, int)>)
+    requires rt_budget_hyp(f, has_budget, budget, env), budget_post(f, env, r),
+        has_budget ==> env == entries_text(budget, f.task.budget_brackets.0@, f.task.budget_brackets.1@, f.task.budget_separator@) + rest,
+    ensures has_budget ==> (r matches Some(p) && p.0 == budget
+            && p.1 == entries_text(budget, f.task.budget_brackets.0@, f.task.budget_brackets.1@, f.task.budget_separator@).len()),
+        !has_budget ==> r is None,
+{
+    let bl = f.task.budget_brackets.0@; let br = f.task.budget_brackets.1@; let sep = f.task.budget_separator@;
+    if has_budget {
+        if budget.len() == 0 {
+            assert(join_l(budget, sep) =~= Seq::<char>::empty());
+            let b0 = bl + (Seq::<char>::empty() + br);
+            assert(b0 =~= bl + br);
+            assert(env.subrange(0, bl.len() as int) =~= bl);
+            assert(tail(env, bl.len() as int).subrange(0, br.len() as int) =~= br);
+            assert(vx_mark(bl.len() as int));
+            assert(close_reachable_p(env, bl.len() as int, br, bl.len() as int, &f.task.is_budget_content));
+            let p = r->Some_0;
+            if p.1 - br.len() > bl.len() { assert(!is_prefix_of(br, tail(env, bl.len() as int))); assert(false); }
+            assert(env.subrange(0, (bl.len() + br.len()) as int) =~= bl + br);
+            assert(p.0 =~= budget);
+        } else {
+            lemma_list_prefix(budget, bl, br, sep, &f.task.is_budget_content, rest);
+        }
+    } else {
+        if r is Some {
+            let p = r->Some_0;
+            let e = choose|e: int| #![trigger vx_mark(e)] vx_mark(e) && bl.len() <= e <= env.len()
+                && (forall|j: int| bl.len() <= j <= e && j < env.len() ==> !is_prefix_of(br, #[trigger] tail(env, j)))
+                && (e == env.len() || !f.task.is_budget_content.spec_call(env[e]));
+            let c = p.1 - br.len();
+            assert(is_prefix_of(br, env.subrange(c, env.len() as int)));
+            if c <= e { assert(!is_prefix_of(br, tail(env, c))); assert(false); }
+            assert(f.task.is_budget_content.spec_call(env[e]));
+            assert(false);
+        }
+    }
+}
+pub proof fn lemma_step_truth(f: &NarseseFormat, env: Seq<char>, x1: Seq<char>, truth: Seq<Seq<char>>, r: Option<(Seq<Seq<char>>, int)>)
+    requires rt_truth_hyp(f, truth, env), truth_post(f, env, r),
+        truth.len() > 0 ==> env == x1 + entries_text(truth, f.sentence.truth_brackets.0@, f.sentence.truth_brackets.1@, f.sentence.truth_separator@),
+    ensures truth.len() > 0 ==> (r matches Some(p) && p.0 == truth && p.1 == x1.len()),
+        truth.len() == 0 ==> r is None,
+{
+    if truth.len() > 0 {
+        lemma_list_suffix(truth, f.sentence.truth_brackets.0@, f.sentence.truth_brackets.1@, f.sentence.truth_separator@, &f.sentence.is_truth_content, x1);
+    }
+}
+pub proof fn lemma_step_stamp(f: &NarseseFormat, x1: Seq<char>, x: Seq<char>, s: Seq<char>, r: Option<(Seq<char>, int)>)
+    requires rt_stamp_hyp(f, x, s), x1 == x + s, stamp_post(f, x1, r)
+    ensures s.len() > 0 ==> (r matches Some(p) && p.0 == s && p.1 == x.len()),
+        s.len() == 0 ==> r is None,
+{
+    if s.len() > 0 {
+        let t = f.sentence.stamp_brackets.suf_matched(x1)->Some_0;
+        let c = x1.subrange(0, x1.len() - t.1@.len());
+        let q = x.len() as int;
+        assert(s.subrange(0, t.0@.len() as int) == t.0@);
+        assert(c.subrange(0, q + t.0@.len()) =~= x + t.0@);
+        assert((x + t.0@).subrange((x + t.0@).len() - t.0@.len(), (x + t.0@).len() as int) =~= t.0@);
+        assert forall|j: int| q + t.0@.len() <= j < c.len() implies f.sentence.is_stamp_content.spec_call(#[trigger] c[j]) by {
+            assert(c[j] == s[j - q]);
+        }
+        assert(vx_mark(q));
+        assert(open_reachable_p(c, t.0@, q, &f.sentence.is_stamp_content));
+        let p = r->Some_0;
+        let lb = p.1;
+        assert(last_open_before(x1, x1.len() - t.1@.len(), t.0@, lb));
+        if lb < q {
+            assert(x1.subrange(0, q + t.0@.len()) =~= c.subrange(0, q + t.0@.len()));
+            assert(false);
+        }
+        if lb > q { assert(!is_suffix_of(t.0@, (x + s).subrange(0, lb + t.0@.len()))); assert(false); }
+        assert(x1.subrange(q, x1.len() as int) =~= s);
+    } else {
+        assert(x1 =~= x);
+        if r is Some {
+            let p = r->Some_0;
+            let t = f.sentence.stamp_brackets.suf_matched(x1)->Some_0;
+            let c = x1.subrange(0, x1.len() - t.1@.len());
+            let e = choose|e: int| #![trigger vx_mark(e)] vx_mark(e) && 0 <= e <= c.len()
+                && (forall|j: int| e <= j <= c.len() ==> !is_suffix_of(t.0@, #[trigger] c.subrange(0, j)))
+                && (e == 0 || !f.sentence.is_stamp_content.spec_call(c[e - 1]));
+            let lb = p.1;
+            let q = lb + t.0@.len();
+            assert(last_open_before(x1, x1.len() - t.1@.len(), t.0@, lb));
+            assert(x1.subrange(0, q) =~= c.subrange(0, q));
+            if q >= e { assert(!is_suffix_of(t.0@, c.subrange(0, q))); assert(false); }
+            assert(c[e - 1] == x1[e - 1]);
+            assert(f.sentence.is_stamp_content.spec_call(x1[e - 1]));
+            assert(false);
+        }
+    }
+}
+pub proof fn lemma_step_punct(f: &NarseseFormat, x1p: Seq<char>, x2: Seq<char>, punct: Seq<char>, r: Option<(Seq<char>, int)>)
+    requires rt_punct_hyp(f, x2, punct), x1p == x2 + punct, punct_post(f, x1p, r)
+    ensures punct.len() > 0 ==> (r matches Some(p) && p.0 == punct && p.1 == x2.len()),
+        punct.len() == 0 ==> r is None,
+{
+    if punct.len() == 0 { assert(x1p =~= x2); }
+}
+
+// ---- the atom name scan, as a predicate (so that its consequences are proved outside segment_atom) ----
+/// maximal munch: from `start` to `rb` every character is an identifier character at which no copula
+/// starts; the character at `rb` (if any) is not
+pub open spec fn atom_scan(f: &NarseseFormat, env: Seq<char>, start: int, rb: int) -> bool {
+    &&& start <= rb <= env.len()
+    &&& forall|j: int| start <= j < rb ==> #[trigger] f.atom.is_identifier.spec_call(env[j]) && f.statement.copulas.pre_matched(tail(env, j)) is None
+    &&& rb < env.len() ==> !(f.atom.is_identifier.spec_call(env[rb]) && f.statement.copulas.pre_matched(tail(env, rb)) is None)
+}
+/// C02: on the text of an atom the scan ends exactly where the name ends
+pub proof fn lemma_atom_rt(f: &NarseseFormat, env: Seq<char>, t: Term, rest: Seq<char>, start: int, rb: int)
+    requires rt_hyp(f, env, t, rest), t is Atom, start == t->prefix@.len(), atom_scan(f, env, start, rb)
+    ensures rb == t->prefix@.len() + t->name@.len(), env.subrange(start, rb) == t->name@, rb == env.len() - rest.len()
+{
+    let pf = t->prefix@; let nm = t->name@;
+    lemma_tail_concat(pf, nm + rest);
+    lemma_tail_concat(nm, rest);
+    assert(env == pf + (nm + rest));
+    assert forall|j: int| 0 <= j < nm.len() implies env[pf.len() + j] == nm[j] && tail(env, pf.len() + j) == tail(nm + rest, j) by {
+        assert(tail(env, pf.len() + j) =~= tail(nm + rest, j));
+    }
+    if rb < pf.len() + nm.len() {
+        let j = rb - pf.len();
+        assert(f.atom.is_identifier.spec_call(nm[j]));
+        assert(false);
+    }
+    if rb > pf.len() + nm.len() {
+        let j = (pf.len() + nm.len()) as int;
+        assert(tail(env, j) =~= rest);
+        assert(env[j] == rest[0]);
+        assert(f.atom.is_identifier.spec_call(env[j]));
+        assert(false);
+    }
+    assert(env.subrange(start, rb) =~= nm);
+}
+
+// ---- C02 at the whole-value entry points ----
+pub open spec fn rt_sentence(s: Sentence, v: RtV) -> bool {
+    term_eqv(s.term, v.term) && s.punctuation@ == v.punct && s.stamp@ == v.stamp && str_views(s.truth@) == v.truth
+}
+/// the parsed value is v: same kind, same strings
+pub open spec fn rt_narsese(n: Narsese, v: RtV) -> bool {
+    if v.punct.len() == 0 { n matches NarseseValue::Term(t) && term_eqv(t, v.term) }
+    else if v.has_budget { n matches NarseseValue::Task(t) && str_views(t.budget@) == v.budget && rt_sentence(t.sentence, v) }
+    else { n matches NarseseValue::Sentence(s) && rt_sentence(s, v) }
+}
+/// a value without punctuation is a bare term: it has no budget, stamp or truth
+pub open spec fn rt_kind_ok(v: RtV) -> bool {
+    v.punct.len() == 0 ==> !v.has_budget && v.stamp.len() == 0 && v.truth.len() == 0
+}
+pub open spec fn rt_entry_v(f: &NarseseFormat, input: Seq<char>, r: ParseResult<Narsese>) -> bool {
+    forall|v: RtV| #[trigger] rt_vhyp(f, idealized(f, input), v) && rt_kind_ok(v) ==> (r matches Ok(n) && rt_narsese(n, v))
 }
